@@ -184,6 +184,28 @@ func c17Families() []c17Family {
 		}
 		return sb.String()
 	}
+	// the same kind of ladder with TEN levels, rules created TOP-DOWN (the ancestors get the smaller cache indexes; the
+	// six-level ladder above is created bottom-up): what is stored about enclosing rules must not depend on index order
+	deepLadder := func() parsley.Parser {
+		ops := []rune("abcdefghij")
+		levels := make([]parser.Func, len(ops)+1)
+		for i := 0; i < len(ops); i++ {
+			i := i
+			levels[i] = combinator.Memoize(combinator.Any(seq(&levels[i], r(ops[i]), &levels[i+1]), &levels[i+1]))
+		}
+		levels[len(ops)] = combinator.Memoize(combinator.Any(terminal.Integer(nil), seq(r('('), &levels[0], r(')'))))
+		return combinator.Sentence(&levels[0])
+	}
+	inDeepLadder := func(n int) string {
+		var sb strings.Builder
+		sb.WriteByte('1')
+		for k := 0; k < n/2; k++ {
+			sb.WriteByte("abcdefghij"[k%10])
+			sb.WriteByte('1')
+		}
+		return sb.String()
+	}
+	fams = append(fams, c17Family{scale: 0.5, name: "precedence ladder of 10 left-recursive levels created top-down, operator chain", build: deepLadder, input: inDeepLadder, check: anyValue})
 	fams = append(fams, c17Family{scale: 0.4, name: "precedence ladder of 6 left-recursive levels, nested parentheses", build: ladder, input: inLadderPar, check: anyValue})
 	fams = append(fams, c17Family{name: "precedence ladder of 6 left-recursive levels, operator chain", build: ladder, input: inLadderChain, check: anyValue})
 
